@@ -120,3 +120,7 @@ mod tests {
         );
     }
 }
+
+#[cfg(kani)]
+#[path = "/verif/kani/atom.rs"]
+mod verif_kani;
